@@ -14,6 +14,7 @@
 import json
 import os
 import random
+import re
 import sys
 import tempfile
 import time
@@ -639,6 +640,67 @@ def titan_segmentation(rep, rnd):
     rep.add("traces_validated_against_impl", n)
 
 
+def titan_declared_sizes(rep, rnd):
+    """C01 for Titan request lines whose declared size is extreme (a 1024-byte line has room for a thousand digits), zero,
+    signed, or not a number at all: the client is answered exactly once - at the latest when the request timeout fires,
+    since the content can never arrive - and the connection is closed; nothing escapes data_received."""
+    import asyncio
+    from nauyaca.protocol.response import GeminiResponse
+    from nauyaca.server.protocol import GeminiServerProtocol
+    from vf.transports import FakeTransport
+    from vf.vloop import VLoop
+    sizes = ["0", "1", "3", "00003", "+3", "-1", "3.0", "1e3", "0x10", " 3", "", "³", "9" * 18, "9" * 19, "9" * 20, "1" + "0" * 100,
+             "1" + "0" * 307, "1" + "0" * 308, "1" + "0" * 309, "9" * 400, "9" * 900, str(2 ** 31), str(2 ** 63), str(2 ** 64)]
+    n = 0
+    for sz in sizes:
+        for tail in (b"", b"abc", b"abcdef"):
+            for hkind in ("ok", "raise"):
+                line = ("titan://h.ex/f.gmi;size=%s;mime=text/plain" % sz).encode() + b"\r\n"
+                if len(line) > 1024:
+                    continue
+                loop = VLoop()
+                asyncio.set_event_loop(loop)
+                try:
+                    class Up:
+                        async def handle_upload(self, req):
+                            if hkind == "raise":
+                                raise RuntimeError("boom")
+                            return GeminiResponse(status=20, meta="text/gemini", body="stored\n")
+                    proto = GeminiServerProtocol(lambda r: GeminiResponse(status=51, meta="no"), None, Up())
+                    tr = FakeTransport(loop, proto, peername=("192.0.2.7", 40000), auto_lost=True)
+                    loop.call(proto.connection_made, tr)
+                    loop.call(tr.feed, line + tail)
+                    loop.run_idle()
+                    for _ in range(6):          # the request timeout and the upload timeout both lie within these steps
+                        nt = loop.next_timer()
+                        if nt is None:
+                            break
+                        loop.advance(nt - loop.time())
+                        loop.run_idle()
+                    wire = bytes(tr.wire)
+                    heads = re.findall(rb"(?m)^[1-6][0-9] [^\r\n]*\r\n", wire)
+                    m = re.match(rb"^([1-6][0-9]) ([^\r\n]{0,1024})\r\n", wire)
+                    bad = None
+                    if tr.fatal is not None:
+                        bad = "an exception escaped data_received (%r): the connection is dropped unanswered" % (tr.fatal,)
+                    elif m is None:
+                        bad = "no well-formed response (wire %r)" % wire[:80]
+                    elif not m.group(1).startswith(b"2") and len(wire) != m.end():
+                        bad = "bytes after a non-2x header (wire %r)" % wire[:80]
+                    elif not tr.is_closing():
+                        bad = "answered but the connection stays open"
+                    n += 1
+                    if bad:
+                        rep.violation({"formula": "AnsweredWhenQuiet" if tr.fatal is not None or m is None else "WellFormed", "titan_declared_size": True},
+                                      "exactly one response falsified: Titan request line with size=%s%s (+%d content bytes, upload handler %s): %s" % (
+                                          sz[:24], "... (%d digits)" % len(sz) if len(sz) > 24 else "", len(tail), hkind, bad), None)
+                finally:
+                    asyncio.set_event_loop(None)
+                    loop.close()
+    rep.add("titan_lines_with_odd_declared_sizes", n)
+    rep.add("traces_validated_against_impl", n)
+
+
 def binding_selftest(rep, rnd):
     """Demonstrate that the trace spec constrains: corrupt one logged field / drop one event of accepted
     traces and require rejection."""
@@ -715,6 +777,8 @@ def main(pid, rep=None, finish=True):
             titan_param_paths(rep, rnd)
         if pid == "C07":
             titan_segmentation(rep, rnd)
+        if pid == "C01":
+            titan_declared_sizes(rep, rnd)
         mt = micro_runs(rep, 4000 if thorough else 800, rnd, rep.seed)
         rep.add("loop_iteration_grain_runs", len(mt))
         rep.add("traces_validated_against_impl", len(mt))
